@@ -225,7 +225,7 @@ func runC05(c *mon.Ctx) {
 	k := &c05Run{c: c}
 
 	// ---- every truncation offset of valid files
-	c.Each("truncations", c.N(2000, 20_000), func(i int64, r *mon.Rand) {
+	c.Each("truncations", c.N(2000, 40_000), func(i int64, r *mon.Rand) {
 		f := gen.SMFFile(r, gen.FileOpts{MaxTracks: 4, MaxEvents: 14, AllowBig: false, Aliens: i%3 == 0, PaddedVLQ: true, Running: true})
 		b := f.Bytes(nil)
 		truth := f.Truth()
@@ -263,7 +263,7 @@ func runC05(c *mon.Ctx) {
 	})
 
 	// ---- grammar-mutated files
-	c.Each("mutants", c.N(100_000, 1_000_000), func(i int64, r *mon.Rand) {
+	c.Each("mutants", c.N(100_000, 4_000_000), func(i int64, r *mon.Rand) {
 		f := gen.SMFFile(r, gen.FileOpts{MaxTracks: 3, MaxEvents: 10, Aliens: i%4 == 0, PaddedVLQ: true, Running: true})
 		b := mutate(r, f.Bytes(nil))
 		c.CurPayload(b)
@@ -282,7 +282,7 @@ func runC05(c *mon.Ctx) {
 	})
 
 	// ---- random strings, half with a valid header prefix
-	c.Each("random", c.N(100_000, 1_000_000), func(i int64, r *mon.Rand) {
+	c.Each("random", c.N(100_000, 4_000_000), func(i int64, r *mon.Rand) {
 		n := r.Intn(200)
 		b := r.Bytes(n)
 		if i%2 == 0 {
